@@ -45,6 +45,8 @@ void StreamAckManager::resetCache() { g_resetCacheCalls++; }
 // ---------------------------------------------------------------- fixture
 static_assert(sizeof(OutgoingIqManager) == 16 + sizeof(VpIqMap), "layout of OutgoingIqManager: { l, &streamAckManager, m_requests }");
 static_assert(sizeof(QXmppOutgoingClient) == 24, "layout of QXmppOutgoingClient: { QObject, d }");
+// n arbitrary UTF-16 units, length known to symbolic execution (vpSymString's length is solver-chosen)
+static QString vpFixString(int n) { QChar b[4]; for (int k = 0; k < n && k < 4; k++) b[k] = QChar(vp_u16()); return QString(b, n); }
 struct Obs { int done; int kind; bool sendError; int sendErrorValue; bool stanzaError; QDomElement el; };
 static Obs obs[4];
 // typed but unconstructed storage (a union member is not constructed implicitly): unlike a char buffer it keeps pointers that the
@@ -69,7 +71,8 @@ struct Fixture {
         // arbitrary valid table: ids non-empty and distinct, addressees non-empty, promises unfinished.
         // (all slots hold constructed objects so that every pointer the solver sees is concrete; `used` decides what exists)
         for (int i = 0; i < VP_MAP_CAP; i++) {
-            key[i] = vpSymStringNonEmpty(2);
+            // cfg bit 256: ids of the pending requests have exactly 1 unit (the id of the new request then has exactly 2, see h_send_packet)
+            key[i] = (vp_cfg() & 256) ? vpFixString(1) : vpSymStringNonEmpty(2);
             jid[i] = vpSymStringNonEmpty(3);
             new (map->slot(i)) VpIqMap::value_type(key[i], IqState { {}, jid[i] });
             used[i] = i < 2 ? vp_bool() : false;
@@ -82,21 +85,28 @@ struct Fixture {
         early = vp_cfg() & 1;
         if (early) watchAll();
     }
-    void watch(int i)
+    static void record(int i, const IqResult &r)
     {
-        task[i]->then(nullptr, [i](IqResult &&r) {
-            obs[i].done++;
-            obs[i].kind = int(r.index());
-            if (auto *e = std::get_if<QXmppError>(&r)) {
-                auto *se = std::any_cast<SendError>(&e->error);
-                obs[i].sendError = se != nullptr;
-                obs[i].sendErrorValue = se ? int(*se) : -1;
-                obs[i].stanzaError = std::any_cast<QXmppStanza::Error>(&e->error) != nullptr;
-            } else {
-                obs[i].el = std::get<QDomElement>(r);
-            }
-        });
+        obs[i].done++;
+        obs[i].kind = int(r.index());
+        if (auto *e = std::get_if<QXmppError>(&r)) {
+            auto *se = std::any_cast<SendError>(&e->error);
+            obs[i].sendError = se != nullptr;
+            obs[i].sendErrorValue = se ? int(*se) : -1;
+            obs[i].stanzaError = std::any_cast<QXmppStanza::Error>(&e->error) != nullptr;
+        } else {
+            obs[i].el = std::get<QDomElement>(r);
+        }
     }
+#ifndef VP_NO_WATCH
+    // observe request i like a caller does: through a continuation
+    void watch(int i) { task[i]->then(nullptr, [i](IqResult &&r) { record(i, r); }); }
+#else
+    // "send" group: observe through the task's stored result instead (no continuation class of the harness may exist in that group:
+    // ll2c offers every ShadowCont<...>::call of matching shape as a candidate at the virtual call in QXmppPromise::finish, and a
+    // candidate reached with a not-yet-excluded null continuation costs minutes)
+    void watch(int i) { obs[i].done = 0; if (task[i]->isFinished() && task[i]->hasResult()) record(i, task[i]->result()); }
+#endif
     // (the unused slot and the sentinel get a continuation too: every promise the solver might still consider then has the same
     //  kind of continuation object, which keeps the virtual call in QXmppPromise::finish a direct call for symbolic execution)
     void watchAll() { for (int i = 0; i < 4; i++) watch(i); }
